@@ -903,6 +903,19 @@ pub fn wire_case(ws: &WireSeeds, r: &mut Rng) -> WireCase {
     }
 }
 
+/// `wire_exec` with allocation accounting: Err when the library asked for one allocation far beyond
+/// anything the size of the input explains.
+pub fn wire_exec_guarded(c: &WireCase) -> Result<u32, String> {
+    crate::alloc_track::reset();
+    let r = wire_exec(c);
+    let m = crate::alloc_track::max_single();
+    let len = c.data.len() + c.aux.len();
+    if m > crate::alloc_track::allowance(len) {
+        return Err(format!("allocation without bound: one allocation of {} bytes while handling a {} input of {} bytes", m, c.kind, len));
+    }
+    Ok(r)
+}
+
 /// Feed one case to the matching library entry points. Panics propagate to the caller.
 pub fn wire_exec(c: &WireCase) -> u32 {
     let mut reached = 0u32;
@@ -1126,9 +1139,13 @@ pub fn worker(seed: u64, shard: u64, count: u64, trace: bool) -> i32 {
         }
         *by_kind.entry(c.kind).or_insert(0) += 1;
         *by_fault.entry(c.fault).or_insert(0) += 1;
-        let res = catch_unwind(AssertUnwindSafe(|| wire_exec(&c)));
+        let res = catch_unwind(AssertUnwindSafe(|| wire_exec_guarded(&c)));
         match res {
-            Ok(reach) => {
+            Ok(Err(m)) => {
+                println!("PANIC {} {} {}", i, m, case_hex(&c));
+                return 1;
+            }
+            Ok(Ok(reach)) => {
                 if reach != 0 {
                     *reached_any.entry(c.kind).or_insert(0) += 1;
                     distinct.insert(mix(&[fnv(c.kind.as_bytes()), fnv(c.fault.as_bytes()), reach as u64, fnv(&c.data)]));
